@@ -216,7 +216,7 @@ class C16(Check):
             'slow (gap) / early break, caller cancelled at up to 3 sampled activation boundaries; start times incl. '
             'negative/fractional. non-trivial = ties, or losers to abort, or slow consumer / break / cancelled caller, '
             'or failures; distinct by sha1(program+faults).')
-    budgets = {'quick': dict(examples=3000, procs=4), 'thorough': dict(examples=40000, procs=16)}
+    budgets = {'quick': dict(examples=3000, procs=4), 'thorough': dict(examples=300000, procs=16)}
     level_text = ('Reference model of completion order and delivery times (max(completion, time the consumer asked)); '
                   'collect: argument order at the slowest time, first failure raised at its time; after the last '
                   'yield/break/cancellation no loser logs another event and every started loser was finalised.')
